@@ -273,22 +273,22 @@ theorem presented_ctxOf (r : SigV2Spec.Req) :
       simpa using this
 
 theorem hasDate_ctxOf (r : SigV2Spec.Req) (h : wf .header r = true) : hasDate (ctxOf r) = SigV2Spec.hasDate r := by
-  simp only [wf, positionalOnce, xAmzDateOnce, Bool.and_eq_true, Bool.or_eq_true, decide_eq_true_eq,
+  simp only [wf, xAmzDateOnce, Bool.and_eq_true, Bool.or_eq_true, decide_eq_true_eq,
     reduceCtorEq, false_or] at h
-  obtain ⟨⟨⟨-, -, hd⟩, hx⟩, -⟩ := h
+  obtain ⟨⟨-, hx⟩, -⟩ := h
   unfold hasDate SigV2Spec.hasDate
-  have h1 : getUnique (ctxOf r).hs (v2b!"date") = theOnly (SigV2Spec.fieldValues r (sp!"date")) :=
-    getUnique_implHeaders r _
+  have h1 : getAll (ctxOf r).hs (v2b!"date") = SigV2Spec.fieldValues r (sp!"date") :=
+    getAll_implHeaders r _
   have h2 : getUnique (ctxOf r).hs (v2b!"x-amz-date") = theOnly (SigV2Spec.fieldValues r (sp!"x-amz-date")) :=
     getUnique_implHeaders r _
   rw [h1, h2]
   generalize SigV2Spec.fieldValues r (sp!"date") = D at *
   generalize SigV2Spec.fieldValues r (sp!"x-amz-date") = X at *
-  match D, X, hd, hx with
-  | [], [], _, _ => rfl
-  | [], [x], _, _ => rfl
-  | [d], [], _, _ => rfl
-  | [d], [x], _, _ => rfl
+  match D, X, hx with
+  | [], [], _ => rfl
+  | [], [x], _ => rfl
+  | _ :: _, [], _ => rfl
+  | _ :: _, [x], _ => rfl
 
 theorem credentials_mode (r : SigV2Spec.Req) (c : SigV2Spec.Creds) (h : SigV2Spec.credentials r = some c) :
     c.mode = if SigV2Spec.paramValues r (sp!"Signature") ≠ [] then .query else .header := by
